@@ -3,3 +3,4 @@ pub mod math;
 pub mod vault;
 pub mod lair;
 pub mod epochs;
+pub mod access;
